@@ -87,6 +87,15 @@ CHECKS = {
                      "signalingState as the table says; calls illegal in the state raise InvalidStateError, mismatched or defective "
                      "descriptions ValueError; after either, signalingState and both descriptions equal their pre-call snapshot; closed is "
                      "absorbing. Configurations are kept to ones C03 shows negotiable so that a C03 defect is not re-reported here."),
+    "C19": dict(engine="pc_sim", design="10/C19", technique="deterministic simulation with enumerated crash points: close() injected at scheduler step k of a full-stack scenario, k stratified over the scenario's measured length plus systematic sweeps; post-close oracle on states, channels, tracks, events, tasks (by node context) and decoder threads",
+                text="Fault enumeration over the close point: scenarios drawn from the C03 space (negotiation with signalling delay, "
+                     "connection, media from endless and finite tracks, data both ways, optional re-negotiation) are executed with close() "
+                     "injected at scheduler step k - 64 strata per scenario over its measured length, and in the systematic part every "
+                     "stride-th step of a few scenarios (every step in the thorough tier) - by either side, both at once or staggered, "
+                     "twice in a row, and after the remote side vanished: close() completes within 120 simulated seconds, a further "
+                     "close() is a no-op, signalling/ICE/connection states are closed, every data channel closed, every received track "
+                     "ended (its consumer got MediaStreamError), no event fires afterwards, no aiortc task of that node is pending and "
+                     "no decoder thread is alive after a 3 s grace period."),
 }
 
 NOT_APPLICABLE = [
